@@ -118,6 +118,90 @@ def rule_auth(ctx):
         ctx.violation("C17.a", "server", q, n, m.loc(n), f"`{q}` writes the session table: a query/refused request must touch no session")
 
 
+class LoginHooks(Hooks):
+    """scenario: None (no FAKESNOW_DB_PATH) | ':isolated:' | 'path'"""
+
+    def __init__(self, scenario):
+        self.scenario = scenario
+        self.connects = []
+
+    def intercept(self, I, key, args, kwargs, site, f=None):
+        if key == "instance.FakeSnow.connect":
+            fs = f.self_val if f is not None else None
+            conn = Obj(f"conn#{len(self.connects)}", kind="conn")
+            self.connects.append((fs, args, conn))
+            I.effect("connect", fs, args, site)
+            return conn
+        if key == "instance.FakeSnow.__init__":
+            fs = f.self_val if f is not None else None
+            if fs is not None:
+                fs.attrs["db_path"] = kwargs.get("db_path", args[2] if len(args) > 2 else Const(None))
+                fs.attrs["_made_at"] = Const(I.siteid(site))
+            return Const(None)
+        return NotImplemented
+
+    def external(self, I, d, args, kwargs, site):
+        if d == "json.loads":
+            params = {}
+            if self.scenario == ":isolated:":
+                params["FAKESNOW_DB_PATH"] = Const(":isolated:")
+            elif self.scenario == "path":
+                params["FAKESNOW_DB_PATH"] = Sym("DB_PATH", typ="str", truthy=True, distinct=True)
+            from ..values import Dct
+            return Dct({"data": Dct({"SESSION_PARAMETERS": Dct(params)})})
+        if d.endswith("JSONResponse"):
+            return Obj("response", kind="response")
+        return NotImplemented
+
+
+def rule_login_instances(ctx):
+    """C17.b (semantic): two logins in one server process — shared by default, a fresh instance per ':isolated:' login,
+    an instance on the requested path otherwise; each login connects exactly once with its database and schema."""
+    prog = ctx.prog
+    m = prog.mod("server")
+    fn = prog.fn("server", "login_request")
+    loc = m.loc(fn)
+    for scenario in (None, ":isolated:", "path"):
+        hooks = []
+
+        def fac(scenario=scenario):
+            h = LoginHooks(scenario)
+            hooks.append(h)
+            return h
+
+        def run(I):
+            f = I.global_lookup("server", "login_request")
+            shared = I.global_lookup("server", "shared_fs")
+            I.effect("shared", shared)
+            for i in (1, 2):
+                req = Obj(f"request{i}", kind="request", query_params=Obj("query_params", kind="params"))
+                I.call(f, [req], {}, None)
+            return shared
+
+        for p, h in zip(explore(prog, fac, run, max_paths=16), hooks):
+            if p.outcome != "return":
+                ctx.ob("C17.b", f"login with FAKESNOW_DB_PATH={scenario}: handler returns", False, loc, repr(p.value))
+                ctx.violation("C17.b", "server", "login_request", f"login raises for {scenario}", loc, f"the login handler raises {p.value.cls} for FAKESNOW_DB_PATH={scenario}")
+                continue
+            shared = p.value
+            insts = [c[0] for c in h.connects]
+            label = {None: "no FAKESNOW_DB_PATH", ":isolated:": "FAKESNOW_DB_PATH=':isolated:'", "path": "FAKESNOW_DB_PATH=<dir>"}[scenario]
+            if len(insts) != 2:
+                ok, why = False, f"{len(insts)} connections are made for two logins"
+            elif scenario is None:
+                ok, why = insts[0] is shared and insts[1] is shared, "the logins do not both use the shared instance"
+            elif scenario == ":isolated:":
+                ok = insts[0] is not insts[1] and insts[0] is not shared and insts[1] is not shared
+                why = "two ':isolated:' logins get the same instance (or the shared one): they see each other's objects"
+            else:
+                okp = all(isinstance(i, Obj) and isinstance(i.attrs.get("db_path"), Sym) and i.attrs["db_path"].tag == "DB_PATH" for i in insts)
+                ok, why = okp and all(i is not shared for i in insts), "a login with a path does not get an instance backed by that path"
+            ctx.ob("C17.b", f"two logins, {label}: instance choice", ok, loc, "" if ok else why)
+            if not ok:
+                ctx.violation("C17.b", "server", "login_request", f"instance choice for {label}", loc, f"two logins with {label}: {why}")
+            break
+
+
 def rule_login(ctx):
     prog = ctx.prog
     m = prog.mod("server")
@@ -139,13 +223,6 @@ def rule_login(ctx):
         if not okargs:
             ctx.violation("C17.b", "server", "login_request", connects[0], m.loc(connects[0]),
                           f"the connection is made with {a} instead of the requested database and schema")
-    # instance choice: shared / isolated / path
-    src = norm(fn)
-    ok3 = "FakeSnow()" in src and "FakeSnow(db_path=db_path)" in src and "shared_fs" in src and "':isolated:'" in src
-    ctx.ob("C17.b", "instance choice is shared / ':isolated:' / path-backed", ok3, m.loc(fn))
-    if not ok3:
-        ctx.violation("C17.b", "server", "login_request", "instance choice", m.loc(fn),
-                      "the login handler no longer chooses between the shared instance, a fresh isolated one and a path-backed one")
 
 
 def rule_error_fields(ctx):
@@ -188,6 +265,43 @@ def _is_float(e, env) -> bool:
     return False
 
 
+def rule_epoch_floor(ctx):
+    """C17.e: the whole-second epoch is a floor (towards minus infinity): integer division truncates towards zero,
+    which is one second off for pre-1970 timestamps with a fraction."""
+    prog = ctx.prog
+    m = prog.mod("arrow")
+    if not prog.has_fn("arrow", "timestamp_to_sf_struct"):
+        return
+    fn = prog.fn("arrow", "timestamp_to_sf_struct")
+    env = {}
+
+    def floored(e) -> bool:
+        if isinstance(e, ast.Name):
+            return env.get(e.id, False)
+        if isinstance(e, ast.Call):
+            f = e.func
+            name = f.attr if isinstance(f, ast.Attribute) else f.id if isinstance(f, ast.Name) else ""
+            if name in ("floor_temporal", "floor"):
+                return True
+            if name in ("cast", "divide", "multiply", "combine_chunks"):
+                base = [f.value] if isinstance(f, ast.Attribute) and name == "cast" else []
+                return any(floored(a) for a in base + list(e.args))
+        return False
+    for s in ast.walk(fn):
+        if isinstance(s, ast.Assign) and isinstance(s.targets[0], ast.Name):
+            env[s.targets[0].id] = floored(s.value)
+    divs = [c for c in ast.walk(fn) if isinstance(c, ast.Call) and isinstance(c.func, ast.Attribute) and c.func.attr in ("divide", "divide_checked")
+            and any(isinstance(a, ast.Constant) and a.value in (1_000_000, 1_000_000_000, 1000) for a in c.args)]
+    ctx.floor("epoch divisions in timestamp_to_sf_struct", len(divs), 1)
+    for c in divs:
+        ok = any(floored(a) for a in c.args) or floored(c)
+        ctx.ob("C17.e", "whole seconds are taken from a value floored to the second (not a truncating division)", ok, m.loc(c), norm(c)[:80])
+        if not ok:
+            ctx.violation("C17.e", "arrow", "timestamp_to_sf_struct", "epoch by truncating division", m.loc(c),
+                          f"`{norm(c)[:90]}` divides the raw sub-second count: integer division truncates towards zero, so a timestamp before "
+                          f"1970 with a fraction (1969-12-31 23:59:59.5) is encoded one second too late")
+
+
 def rule_fraction(ctx):
     prog = ctx.prog
     m = prog.mod("arrow")
@@ -215,6 +329,8 @@ def rule_fraction(ctx):
 RULES = [
     ("C17.a", rule_auth, ("quick", "thorough")),
     ("C17.b", rule_login, ("quick", "thorough")),
+    ("C17.b2", rule_login_instances, ("quick", "thorough")),
+    ("C17.e", rule_epoch_floor, ("quick", "thorough")),
     ("C17.c", rule_error_fields, ("quick", "thorough")),
     ("C17.d", rule_fraction, ("quick", "thorough")),
 ]
